@@ -2,7 +2,7 @@
 # usage: confirm_seed.sh <name> <patch.diff> <demo_test.go>
 # In a scratch worktree of /repo HEAD: (1) patch applies and builds, (2) full suite passes with the patch,
 # (3) demo fails with the patch, (4) demo passes without it.  Prints a one-line verdict; removes the worktree.
-name=$1; patch=$2; demo=$3
+name=$1; patch=$2; demo=$3; pat=${4:-Demo}
 wt=/tmp/confirm-$name
 export GOFLAGS=-mod=mod GOPROXY=off GOSUMDB=off
 git -C /repo worktree add -q --detach $wt HEAD || exit 9
@@ -13,10 +13,10 @@ if go build ./... 2>/dev/null; then res="$res builds=yes"; else res="$res builds
 suite=$(go test -vet=off -count=1 -timeout 25m ./... 2>&1 | tail -1)
 case "$suite" in ok*) res="$res suite=pass";; *) res="$res suite=FAIL";; esac
 cp "$demo" zz_demo_test.go
-d1=$(timeout 300 go test -vet=off -count=1 -timeout 4m -run 'Demo' . 2>&1 | tail -1)
+d1=$(timeout 300 go test -vet=off -count=1 -timeout 4m -run "$pat" . 2>&1 | tail -1)
 case "$d1" in ok*) res="$res demo_with_patch=PASS(bad)";; *) res="$res demo_with_patch=fail(good)";; esac
 git checkout -q -- . 
-d2=$(timeout 300 go test -vet=off -count=1 -timeout 4m -run 'Demo' . 2>&1 | tail -1)
+d2=$(timeout 300 go test -vet=off -count=1 -timeout 4m -run "$pat" . 2>&1 | tail -1)
 case "$d2" in ok*) res="$res demo_without=pass(good)";; *) res="$res demo_without=FAIL(bad)";; esac
 echo "$res"
 cd /; git -C /repo worktree remove --force $wt
